@@ -426,3 +426,102 @@ func InstrPos(in ssa.Instruction) token.Pos {
 	}
 	return token.NoPos
 }
+
+// SameValue reports structural equality of two pure SSA values (go/ssa does
+// no CSE, so `s[i+1]` evaluated twice yields two instructions). Only
+// side-effect-free, memory-independent operators are compared structurally:
+// constants, parameters, BinOp/UnOp(non-load), Convert, string Lookup/Index
+// (strings are immutable), Slice of strings, Extract of the same tuple.
+func SameValue(a, b ssa.Value) bool { return sameValue(a, b, 0) }
+
+func sameValue(a, b ssa.Value, d int) bool {
+	if a == b {
+		return true
+	}
+	if d > 8 || a == nil || b == nil {
+		return false
+	}
+	switch x := a.(type) {
+	case *ssa.Const:
+		y, ok := b.(*ssa.Const)
+		if !ok || !types.Identical(x.Type(), y.Type()) {
+			return false
+		}
+		if x.Value == nil || y.Value == nil {
+			return x.Value == nil && y.Value == nil
+		}
+		return constant.Compare(x.Value, token.EQL, y.Value)
+	case *ssa.BinOp:
+		y, ok := b.(*ssa.BinOp)
+		return ok && x.Op == y.Op && sameValue(x.X, y.X, d+1) && sameValue(x.Y, y.Y, d+1)
+	case *ssa.UnOp:
+		y, ok := b.(*ssa.UnOp)
+		if !ok || x.Op != y.Op || x.Op == token.MUL || x.Op == token.ARROW {
+			return false
+		}
+		return sameValue(x.X, y.X, d+1)
+	case *ssa.Convert:
+		y, ok := b.(*ssa.Convert)
+		return ok && types.Identical(x.Type(), y.Type()) && sameValue(x.X, y.X, d+1)
+	case *ssa.Lookup:
+		y, ok := b.(*ssa.Lookup)
+		if !ok || x.CommaOk || y.CommaOk {
+			return false
+		}
+		if bt, isB := x.X.Type().Underlying().(*types.Basic); !isB || bt.Info()&types.IsString == 0 {
+			return false
+		}
+		return sameValue(x.X, y.X, d+1) && sameValue(x.Index, y.Index, d+1)
+	case *ssa.Index:
+		y, ok := b.(*ssa.Index)
+		if !ok {
+			return false
+		}
+		if bt, isB := x.X.Type().Underlying().(*types.Basic); !isB || bt.Info()&types.IsString == 0 {
+			return false
+		}
+		return sameValue(x.X, y.X, d+1) && sameValue(x.Index, y.Index, d+1)
+	case *ssa.Slice:
+		y, ok := b.(*ssa.Slice)
+		if !ok {
+			return false
+		}
+		if bt, isB := x.X.Type().Underlying().(*types.Basic); !isB || bt.Info()&types.IsString == 0 {
+			return false
+		}
+		return sameValue(x.X, y.X, d+1) && sameOpt(x.Low, y.Low, d) && sameOpt(x.High, y.High, d)
+	case *ssa.Extract:
+		y, ok := b.(*ssa.Extract)
+		return ok && x.Index == y.Index && x.Tuple == y.Tuple
+	}
+	return false
+}
+
+func sameOpt(a, b ssa.Value, d int) bool {
+	if a == nil || b == nil {
+		return a == nil && b == nil
+	}
+	return sameValue(a, b, d+1)
+}
+
+// PhiClosure returns the set of values v may take through phi nodes.
+func PhiClosure(v ssa.Value) []ssa.Value {
+	seen := map[ssa.Value]bool{}
+	var out []ssa.Value
+	var walk func(v ssa.Value)
+	walk = func(v ssa.Value) {
+		if seen[v] {
+			return
+		}
+		seen[v] = true
+		if p, ok := v.(*ssa.Phi); ok {
+			for _, e := range p.Edges {
+				walk(e)
+			}
+			return
+		}
+		out = append(out, v)
+	}
+	walk(v)
+	return out
+}
